@@ -22,7 +22,7 @@ pub struct Case {
     /// name shared by a type of A and an unrelated type of B
     pub clash: String,
     /// how B's lib.rs names B's own clash type (which lives in settings.rs): 0 `use crate::..`, 1 `use self::..`,
-    /// 2 qualified `crate::settings::X`, 3 qualified `self::settings::X`, 4 grouped `use self::{settings::X}`
+    /// 2 qualified `crate::settings::X`, 3 qualified `self::settings::X`, 4 grouped `use self::{settings::X}`, 5 `use crate::settings;` + `settings::X`
     pub lib_form: u8,
     /// how B's net/mod.rs names it: 0 `use crate::..`, 1 `use super::..`, 2 qualified `super::settings::X`, 3 `crate::..`
     pub net_form: u8,
@@ -66,7 +66,9 @@ impl Case {
             format!("{hdr}\n#[typeshare]\n#[derive(Serialize, Deserialize)]\n{rename_attr}pub struct {x} {{\n    pub only_in_a: bool,\n}}\n\n#[typeshare]\n#[derive(Serialize, Deserialize)]\npub struct {imp} {{\n    pub amount: u32,\n}}\n\n#[typeshare]\n#[derive(Serialize, Deserialize)]\npub struct Leaf {{\n    pub leaf_of_a: String,\n}}\n"),
         ));
         // crate B
-        let (lib_use, lib_ty) = match self.lib_form % 5 {
+        let (lib_use, lib_ty) = match self.lib_form % 6 {
+            // the module is imported, the type named through it (`use crate::settings;` + `settings::X`)
+            5 => ("use crate::settings;\n".to_string(), format!("settings::{x}")),
             0 => (format!("use crate::settings::{x};\n"), x.clone()),
             1 => (format!("use self::settings::{x};\n"), x.clone()),
             2 => (String::new(), format!("crate::settings::{x}")),
@@ -118,7 +120,7 @@ impl SubCheck for C14Scope {
     }
     fn strategy(&self, _tier: Tier) -> BoxedStrategy<Case> {
         let dirs = prop_oneof![Just(("crate_a", "crate_b")), Just(("zeta-types", "app")), Just(("api", "core-types")), Just(("shared_models", "x-y-z")), Just(("shared_models", "codable"))];
-        (ws::lang_strategy(), dirs, proptest::sample::subsequence(NAMES.to_vec(), 2..=2).prop_shuffle(), 0u8..5, 0u8..4, any::<bool>(), any::<bool>(), any::<bool>(), any::<bool>(), any::<bool>())
+        (ws::lang_strategy(), dirs, proptest::sample::subsequence(NAMES.to_vec(), 2..=2).prop_shuffle(), 0u8..6, 0u8..4, any::<bool>(), any::<bool>(), any::<bool>(), any::<bool>(), any::<bool>())
             .prop_map(|(lang, (a, b), names, lib_form, net_form, child_ref, generic_shadow, generic_first, src_ancestor, glob_and_rename)| Case {
                 lang,
                 crate_a: a.to_string(),
@@ -147,9 +149,9 @@ impl SubCheck for C14Scope {
         let mut args = cli::lang_args(lang, &Cfg::plain());
         args.extend(["-d".into(), outd.to_string_lossy().into_owned(), tree.to_string_lossy().into_owned()]);
         let r = cli::run(&args, &root, &[], Duration::from_secs(20));
-        let form = format!("lib={}/net={}/child={}/generic={}{}", c.lib_form % 5, c.net_form % 4, c.child_ref, if c.generic_shadow { if c.generic_first { "first" } else { "after" } } else { "none" }, if c.src_ancestor { "/workspace-below-a-directory-named-src" } else { "" });
+        let form = format!("lib={}/net={}/child={}/generic={}{}", c.lib_form % 6, c.net_form % 4, c.child_ref, if c.generic_shadow { if c.generic_first { "first" } else { "after" } } else { "none" }, if c.src_ancestor { "/workspace-below-a-directory-named-src" } else { "" });
         if counting {
-            run.label(&format!("c14s/{}/lib-form={}", lang.short(), c.lib_form % 5));
+            run.label(&format!("c14s/{}/lib-form={}", lang.short(), c.lib_form % 6));
             run.label(&format!("c14s/net-form={}", c.net_form % 4));
             run.label(&format!("c14s/generic-shadow={}", c.generic_shadow));
             run.nontrivial(hash_of(&(serde_json::to_string(c).unwrap_or_default(),)));
@@ -236,7 +238,7 @@ impl SubCheck for C14Scope {
                 }
                 let local = fb.decls.iter().any(|d| d.name == *n);
                 out.push(Violation::new(
-                    format!("scoping/{}/spurious-import/{}", lang.short(), if local { "name-is-defined-in-the-importing-file" } else { "other" }),
+                    format!("scoping/{}/spurious-import/{}{}", lang.short(), if local { "name-is-defined-in-the-importing-file" } else { "other" }, if c.lib_form % 6 == 5 && *n == c.clash { "/named-through-an-imported-module-of-the-own-crate" } else { "" }),
                     format!("{}: `{b}` imports `{n}` from `{m}` although every path naming it is relative to the own crate ({form})", lang.name()),
                 ));
             }
